@@ -107,8 +107,13 @@ struct Exec {
         u64 h = mix(0xC01, (u64)rr.outcome);
         if (rr.outcome == OK) {
             h = Hash(after, h);
+            // effects = final registers + the sequence of memory WRITES. Reads are not part of the comparison: how often
+            // and in which order an implementation reads program words (prefetch, re-read, decode cache) is not behaviour,
+            // and a data read that goes to a wrong address shows in the value it delivers (every cell holds a distinct
+            // pattern); reads that reach peripheral registers are C11's subject (forms monitor).
             for (auto& a : m.log())
-                h = mix(h, ((u64)a.addr << 20) ^ ((u64)a.write << 17) ^ a.value);
+                if (a.write)
+                    h = mix(h, ((u64)a.addr << 20) ^ a.value);
         }
         digest = h;
     }
